@@ -31,7 +31,9 @@ ROTS_T = [0, 90, 180, 270, 30, -45, 123.4, 400, -725, 1e-3, 89.99, 45, 60, -90, 
 STARTS_T = [1.25 - 0.5j, 0j, -3.0e5 + 2.0e5j]
 RADII = [(0.3, 0.3), (1.0, 1.0), (1.0 + 1e-12, 1.0 + 1e-12), (1.0 - 1e-12, 1.0), (1.0 + 1e-7, 1.0 + 1e-7),
          (1.0 + 1e-4, 1.0 + 1e-4), (1.5, 1.5), (10.0, 10.0), (3.0, 1.0), (1.0, 3.0), (100.0, 1.0), (-2.0, -1.5), (1.5, 0.4),
-         (1e-80, 2e-80), (1e-140, 1e-140), (1e-9, 1e-9)]
+         (1e-80, 2e-80), (1e-140, 1e-140), (1e-9, 1e-9),
+         # too small by a few millionths: still too small (the ellipse must be enlarged, the centre is the chord's midpoint)
+         (1.0 - 1e-6, 1.0 - 1e-6), (1.0 - 3e-6, 1.0), (1.0 - 1e-4, 1.0 - 1e-4), (1.0 - 1e-8, 1.0 - 1e-8)]
 ROTS = [0, 90, 180, 270, 30, -45, 123.4, 400, -725, 3.6e12 + 25.0]     # the last: ten thousand million turns and 25 degrees
 FLAGS = [(0, 0), (0, 1), (1, 0), (1, 1)]
 TS = [0.0, 2.0 ** -52, 0.125, 0.25, 1.0 / 3.0, 0.5, 0.7, 0.875, 1.0 - 2.0 ** -53, 1.0]
